@@ -217,8 +217,8 @@ class Apply(Suite):
     name = "apply"
     go_cmd = "c06"
     coq_imports = "From GoGit Require Import Model.Delta Spec.GitDelta."
-    quick_n = 240
-    thorough_n = 6000
+    quick_n = 200
+    thorough_n = 2400
     coq_chunk = 40
 
     def gen(self, rng, n, tier):
@@ -438,8 +438,8 @@ class Diff(Suite):
     name = "diff"
     go_cmd = "c06"
     coq_imports = "From GoGit Require Import Model.Delta."
-    quick_n = 100
-    thorough_n = 3000
+    quick_n = 80
+    thorough_n = 900
     coq_chunk = 30
 
     def __init__(self):
